@@ -441,9 +441,96 @@ func normalise(series []mSeries) map[uint32][]mSeries {
 	return byKey
 }
 
-// compareFrames returns "" when decoded equals expected in normal form, else a short
-// class of the difference and a description.
+// mergeable reports whether the decoded series of one key can be obtained from the
+// expected series of that key by merging alignment-contiguous runs (each decoded series =
+// one chain e1..ek with e1.alignment = its alignment, every next link starting where the
+// previous one ends, data concatenated, time range = union), every expected series used
+// exactly once. This is exactly the freedom the statement gives the codec; it does not
+// depend on how ties between equal alignments are ordered. ok=false,exhausted=true when
+// the search budget ran out.
+func mergeable(expected, decoded []mSeries, typeOK func(e, d string) bool) (ok, exhausted bool) {
+	used := make([]bool, len(expected))
+	budget := 200000
+	var place func(di int) bool
+	var extend func(di int, align uint64, off int, n int64, start, end int64, first bool) bool
+	place = func(di int) bool {
+		if di == len(decoded) {
+			for _, u := range used {
+				if !u {
+					return false
+				}
+			}
+			return true
+		}
+		return extend(di, decoded[di].Align, 0, 0, 0, 0, true)
+	}
+	extend = func(di int, align uint64, off int, n int64, start, end int64, first bool) bool {
+		if budget--; budget < 0 {
+			return false
+		}
+		d := decoded[di]
+		if !first && n == d.N && off == len(d.Data) && start == d.Start && end == d.End {
+			if place(di + 1) {
+				return true
+			}
+		}
+		for i, e := range expected {
+			if used[i] || e.Align != align || !typeOK(e.DT, d.DT) {
+				continue
+			}
+			if off+len(e.Data) > len(d.Data) || n+e.N > d.N || !bytes.Equal(d.Data[off:off+len(e.Data)], e.Data) {
+				continue
+			}
+			s2, e2 := start, end
+			if first {
+				s2, e2 = e.Start, e.End
+			} else {
+				s2, e2 = min(start, e.Start), max(end, e.End)
+			}
+			used[i] = true
+			if extend(di, align+uint64(e.N), off+len(e.Data), n+e.N, s2, e2, false) {
+				return true
+			}
+			used[i] = false
+		}
+		return false
+	}
+	ok = place(0)
+	return ok, !ok && budget < 0
+}
+
+// compareFrames returns "" when decoded equals expected up to key order and merging of
+// alignment-contiguous series, else a short class of the difference and a description.
+// The fast path compares normal forms; when they differ the general matcher decides
+// (class "inconclusive" when its budget runs out).
 func compareFrames(expected, decoded []mSeries, spec codecSpec) (class, what string) {
+	class, what = compareNormal(expected, decoded, spec)
+	if class == "" || class == "extra-key" {
+		return class, what
+	}
+	be, bd := map[uint32][]mSeries{}, map[uint32][]mSeries{}
+	for _, s := range expected {
+		be[s.Key] = append(be[s.Key], s)
+	}
+	for _, s := range decoded {
+		bd[s.Key] = append(bd[s.Key], s)
+	}
+	for k, es := range be {
+		chT, _ := spec.dtype(k)
+		ok, exhausted := mergeable(es, bd[k], func(e, d string) bool {
+			return e == d || (isI64Pair(e, chT) && isI64Pair(d, chT))
+		})
+		if exhausted {
+			return "inconclusive", "merge matcher budget exhausted"
+		}
+		if !ok {
+			return class, what
+		}
+	}
+	return "", ""
+}
+
+func compareNormal(expected, decoded []mSeries, spec codecSpec) (class, what string) {
 	ne, nd := normalise(expected), normalise(decoded)
 	for k := range nd {
 		if _, ok := ne[k]; !ok {
